@@ -20,6 +20,7 @@ Inductive pkind := PVal | PRef | PCRef.
 
 Inductive fexpr :=
 | FLeaf (id : N) (throws : bool)                   (* function object accepting anything (A&&...) *)
+| FLeafRef (id : N)                                (* ... returning its first argument by reference *)
 | FMem (t : N) (id : N) (kinds : list pkind)       (* sigc::mem_fun(obj_t, &T::m) *)
 | FBind (loc : option nat) (f : fexpr) (bs : list bound)
 | FHide (loc : option nat) (f : fexpr)
@@ -36,6 +37,7 @@ Inductive fexpr :=
 Definition class_of (e : fexpr) : string :=
   match e with
   | FLeaf _ _ => "adaptor_functor"
+  | FLeafRef _ => "adaptor_functor"
   | FMem _ _ _ => "bound_mem_functor"
   | FBind (Some _) _ _ => "bind_functor"
   | FBind None _ _ => "bind_functor<-1>"
@@ -73,6 +75,7 @@ Definition bound_refs_doc (b : bound) : list N :=
 Fixpoint refs (e : fexpr) : list N :=
   match e with
   | FLeaf _ _ => []
+  | FLeafRef _ => []
   | FMem t _ _ => [t]
   | FBind _ f bs => refs f ++ flat_map bound_refs_doc bs
   | FHide _ f => refs f
@@ -107,6 +110,7 @@ Fixpoint visited (T : vtable) (e : fexpr) : list N :=
   let vs := visits_of T (visitor_key e) in
   match e with
   | FLeaf _ _ => []
+  | FLeafRef _ => []
   | FMem t _ _ =>
       flat_map (fun v => match v with
                          | VMember m => if String.eqb m "obj_" && reaches_limit_reference T then [t] else []
@@ -204,7 +208,7 @@ Definition known_fields : list (string * list string) :=
   ; ("bind_return_functor", ["ret_value_"]); ("compose1_functor", ["get_"]); ("compose2_functor", ["get1_"; "get2_"])
   ; ("exception_catch_functor", ["catcher_"]); ("hide_functor", []); ("retype_functor", [])
   ; ("retype_return_functor", []); ("retype_return_functor<void>", []); ("track_obj_functor", ["obj_"])
-  ; ("bound_mem_functor", ["obj_"; "func_ptr_"]) ].
+  ; ("bound_mem_functor", ["obj_"]); ("mem_functor", ["func_ptr_"]) ].
 
 Definition fields_ok (M : list (string * list (string * string))) : bool :=
   forallb (fun '(k, known) =>
@@ -219,7 +223,7 @@ Definition fields_ok (M : list (string * list (string * string))) : bool :=
 
 Inductive ident := IOrig (k : nat) | IBoundRef (t : N) | ICopy.
 Record arg := mkArg { a_v : Z; a_id : ident }.
-Inductive result := RInt (v : Z) | RVoid | RThrow.
+Inductive result := RInt (v : Z) | RRef (a : arg) | RVoid | RThrow.
 Definition log := list (N * list arg).
 
 Fixpoint weighted (i : Z) (l : list arg) : Z :=
@@ -239,6 +243,19 @@ Definition bound_result (b : bound) : Z := match b with BVal v => v | _ => 0%Z e
 
 Definition lastn {A} (n : nat) (l : list A) : list A := skipn (List.length l - n) l.
 
+(* a getter's result as the setter's argument: a returned reference is the object itself *)
+Definition result_arg (r : result) : option arg :=
+  match r with
+  | RInt v => Some (mkArg v ICopy)
+  | RRef a => Some a
+  | _ => None
+  end.
+Definition first_arg_ref (args : list arg) : result :=
+  match args with a :: _ => RRef a | [] => RInt 0 end.
+(* retype_return<long>: T_return(result) *)
+Definition to_long (r : result) : result :=
+  match r with RRef a => RInt (a_v a) | _ => r end.
+
 Definition copy_arg (a : arg) : arg := mkArg (a_v a) ICopy.
 
 (* a member function sees a copy of each parameter it declares by value *)
@@ -249,26 +266,27 @@ Definition apply_kinds (kinds : list pkind) (args : list arg) : list arg :=
 Fixpoint call_doc (e : fexpr) (args : list arg) : log * result :=
   match e with
   | FLeaf id throws => ([(id, args)], if throws then RThrow else RInt (leaf_ret id args))
+  | FLeafRef id => ([(id, args)], first_arg_ref args)
   | FMem _ id kinds => let seen := apply_kinds kinds args in ([(id, seen)], RInt (leaf_ret id seen))
   | FBind (Some i) f bs => call_doc f (firstn i args ++ map bound_arg bs ++ skipn i args)
   | FBind None f bs => call_doc f (args ++ map bound_arg bs)
   | FHide (Some i) f => call_doc f (firstn i args ++ skipn (S i) args)
   | FHide None f => call_doc f (removelast args)
   | FRetype f => call_doc f args
-  | FRetypeReturn f => call_doc f args
+  | FRetypeReturn f => let '(l, r) := call_doc f args in (l, to_long r)
   | FHideReturn f => let '(l, r) := call_doc f args in (l, match r with RThrow => RThrow | _ => RVoid end)
   | FBindReturn f b => let '(l, r) := call_doc f args in (l, match r with RThrow => RThrow | _ => RInt (bound_result b) end)
   | FCompose1 s g =>
       let '(l1, r1) := call_doc g args in
-      match r1 with
-      | RInt v => let '(l2, r2) := call_doc s [mkArg v ICopy] in (l1 ++ l2, r2)
-      | _ => (l1, RThrow)
+      match result_arg r1 with
+      | Some a => let '(l2, r2) := call_doc s [a] in (l1 ++ l2, r2)
+      | None => (l1, RThrow)
       end
   | FCompose2 s g1 g2 =>
       let '(l1, r1) := call_doc g1 args in
       let '(l2, r2) := call_doc g2 args in
-      match r1, r2 with
-      | RInt v1, RInt v2 => let '(l3, r3) := call_doc s [mkArg v1 ICopy; mkArg v2 ICopy] in (l1 ++ l2 ++ l3, r3)
+      match result_arg r1, result_arg r2 with
+      | Some a1, Some a2 => let '(l3, r3) := call_doc s [a1; a2] in (l1 ++ l2 ++ l3, r3)
       | _, _ => (l1 ++ l2, RThrow)
       end
   | FExcCatch f c =>
@@ -339,6 +357,7 @@ Fixpoint call (M : mtable) (S : stable) (e : fexpr) (deduced : bool) (args : lis
   let args' := pass m deduced args in
   match e with
   | FLeaf id throws => COk [(id, args)] (if throws then RThrow else RInt (leaf_ret id args))
+  | FLeafRef id => COk [(id, args)] (first_arg_ref args)
   | FMem _ id kinds =>
       if Nat.eqb (List.length kinds) (List.length args)
       then let seen := apply_kinds kinds args in COk [(id, seen)] (RInt (leaf_ret id seen))
@@ -360,23 +379,28 @@ Fixpoint call (M : mtable) (S : stable) (e : fexpr) (deduced : bool) (args : lis
       | None => CIllFormed
       end
   | FRetype f => call M S f true args'
-  | FRetypeReturn f => call M S f true args'
+  | FRetypeReturn f => cbind (call M S f true args') (fun l r => COk l (to_long r))
   | FHideReturn f => cbind (call M S f true args') (fun l r => COk l (match r with RThrow => RThrow | _ => RVoid end))
   | FBindReturn f b => cbind (call M S f true args') (fun l r => COk l (match r with RThrow => RThrow | _ => RInt (bound_result b) end))
   | FCompose1 s g =>
       cbind (call M S g true args') (fun l1 r1 =>
         match r1 with
-        | RInt v => cbind (call M S s true [mkArg v ICopy]) (fun l2 r2 => COk (l1 ++ l2) r2)
         | RVoid => CIllFormed
         | RThrow => COk l1 RThrow
+        | _ => match result_arg r1 with
+               | Some a => cbind (call M S s true [a]) (fun l2 r2 => COk (l1 ++ l2) r2)
+               | None => CIllFormed
+               end
         end)
   | FCompose2 s g1 g2 =>
       cbind (call M S g1 true args') (fun l1 r1 =>
       cbind (call M S g2 true args') (fun l2 r2 =>
         match r1, r2 with
-        | RInt v1, RInt v2 => cbind (call M S s true [mkArg v1 ICopy; mkArg v2 ICopy]) (fun l3 r3 => COk (l1 ++ l2 ++ l3) r3)
         | RVoid, _ | _, RVoid => CIllFormed
-        | _, _ => COk (l1 ++ l2) RThrow
+        | _, _ => match result_arg r1, result_arg r2 with
+                  | Some a1, Some a2 => cbind (call M S s true [a1; a2]) (fun l3 r3 => COk (l1 ++ l2 ++ l3) r3)
+                  | _, _ => COk (l1 ++ l2) RThrow
+                  end
         end))
   | FExcCatch f c =>
       cbind (call M S f true args') (fun l r => COk l (match r with RThrow => RInt (Z.of_N c) | _ => r end))
@@ -414,6 +438,7 @@ Definition slices_ok (S : stable) : bool :=
 Fixpoint wt (e : fexpr) (n : nat) : bool :=
   match e with
   | FLeaf _ _ => true
+  | FLeafRef _ => true
   | FMem _ _ kinds => Nat.eqb (List.length kinds) n
   | FBind (Some i) f bs => Nat.leb i n && wt f (n + List.length bs)
   | FBind None f bs => wt f (n + List.length bs)
@@ -431,7 +456,7 @@ Fixpoint wt (e : fexpr) (n : nat) : bool :=
 (* no sub-expression yields void where a value is consumed (compose getters) *)
 Fixpoint returns_value (e : fexpr) : bool :=
   match e with
-  | FLeaf _ _ | FMem _ _ _ => true
+  | FLeaf _ _ | FLeafRef _ | FMem _ _ _ => true
   | FBind _ f _ | FHide _ f | FRetype f | FRetypeReturn f | FTrackObj f _ | FSlot f => returns_value f
   | FHideReturn _ => false
   | FBindReturn _ _ => true
@@ -442,7 +467,7 @@ Fixpoint returns_value (e : fexpr) : bool :=
 
 Fixpoint wf_values (e : fexpr) : bool :=
   match e with
-  | FLeaf _ _ | FMem _ _ _ => true
+  | FLeaf _ _ | FLeafRef _ | FMem _ _ _ => true
   | FBind _ f _ | FHide _ f | FRetype f | FRetypeReturn f | FHideReturn f | FTrackObj f _ | FSlot f | FBindReturn f _ | FExcCatch f _ => wf_values f
   | FCompose1 s g => wf_values s && wf_values g && returns_value g
   | FCompose2 s g1 g2 => wf_values s && wf_values g1 && wf_values g2 && returns_value g1 && returns_value g2
@@ -454,7 +479,7 @@ Definition forwarding (m : hop_mode) : bool :=
 
 Fixpoint all_forwarding (M : mtable) (e : fexpr) : bool :=
   match e with
-  | FLeaf _ _ | FMem _ _ _ => true
+  | FLeaf _ _ | FLeafRef _ | FMem _ _ _ => true
   | FBind _ f _ | FHide _ f | FRetype f | FRetypeReturn f | FHideReturn f | FTrackObj f _ | FBindReturn f _ | FExcCatch f _ =>
       forwarding (mode_of M (class_of e)) && all_forwarding M f
   | FSlot f => all_forwarding M f
@@ -467,6 +492,10 @@ Definition modes_ok (M : mtable) : bool :=
     ["bind_functor"; "bind_functor<-1>"; "hide_functor"; "retype_functor"; "retype_return_functor";
      "retype_return_functor<void>"; "bind_return_functor"; "compose1_functor"; "compose2_functor";
      "exception_catch_functor"; "track_obj_functor"].
+
+(* a result up to the identity of a returned reference *)
+Definition result_val (r : result) : result :=
+  match r with RRef a => RRef (mkArg (a_v a) ICopy) | _ => r end.
 
 (* what the leaves observe: identities only / values only *)
 Definition log_values (l : log) : list (N * list Z) := map (fun '(id, a) => (id, map a_v a)) l.
